@@ -142,7 +142,8 @@ fn coin_steal() -> bool {
    }
    // one draw from the scheduler-owned PRNG per decision (recorded, replayable)
    let x = shuttle::rand::thread_rng().next_u64();
-   (x % 1000) < permille as u64
+   // a draw of 0 means "not stolen" (minimisation shrinks draws towards 0)
+   (x % 1000) >= 1000 - permille as u64
 }
 
 /// Decides whether a piece of work migrates to another worker, and if so claims that worker.
